@@ -854,6 +854,12 @@ func extraCommand(cmd string, args []string) bool {
 	case "bincfg":
 		runBinCfg(args)
 		return true
+	case "binpipe":
+		runBinPipe(args)
+		return true
+	case "binaddr":
+		runBinAddr(args)
+		return true
 	case "binconn":
 		runBinConn(args)
 		return true
